@@ -1,0 +1,16 @@
+//go:build verif
+
+package liquidity
+
+// Machine-checked contracts for the govc verifier (/verif). Comment-only; compiled only with -tags verif.
+
+// Block hook (C15): it never panics, and all of its state changes happen inside wrapped all-or-nothing steps.
+//@ func BeginBlocker
+//@   property C15
+//@   modifies nothing
+//@   nopanic
+
+//@ func EndBlocker
+//@   property C15
+//@   modifies nothing
+//@   nopanic
